@@ -83,6 +83,30 @@ def gen(chk, tier):
             opens("aad_bit", key_, ts, [(nonce, flip(aad, b), ct) for b in ab])
         if len(nonce) <= 16:
             opens("nonce_bit", key_, ts, [(flip(nonce, b), aad, ct) for b in range(0, 8 * len(nonce), 1 if not q else 5)])
+        # differences that CANCEL under a wrong accumulation of the comparison (sum, xor or last-only
+        # instead of OR): two 8-byte halves whose differences add up to 0 mod 2^64 (either byte order)
+        # or are equal; two bytes whose differences add up to 0 mod 256 or are equal
+        def xor_at(buf, off, val, n, order):
+            o = list(buf)
+            for i, bv in enumerate(val.to_bytes(n, order)):
+                o[off + i] ^= bv
+            return o
+        canc = []
+        if ts >= 16:
+            for order in ("little", "big"):
+                for d0 in (1, 1 << 63, rng.getrandbits(64) | 1, (1 << 64) - 1):
+                    d1 = (-d0) % (1 << 64)
+                    canc.append(xor_at(xor_at(ct, L, d0, 8, order), L + 8, d1, 8, order))      # sum cancels
+                    canc.append(xor_at(xor_at(ct, L, d0, 8, order), L + 8, d0, 8, order))      # xor cancels
+        for (i, j) in ((0, 1), (0, ts - 1), (7, 8), (8, ts - 1), (ts - 2, ts - 1)):
+            for d0 in (1, 128, rng.randrange(1, 256)):
+                t1 = list(ct); t1[L + i] ^= d0; t1[L + j] ^= (256 - d0) % 256
+                t2 = list(ct); t2[L + i] ^= d0; t2[L + j] ^= d0
+                canc += [t1, t2]
+        t3 = list(ct); t3[L + ts - 1] ^= 0x55                                                  # only the last byte
+        t4 = list(ct); t4[L] ^= 0x55                                                           # only the first byte
+        canc += [t3, t4]
+        opens("tag_cancelling_differences", key_, ts, [(nonce, aad, c_) for c_ in canc if c_ != ct])
         # aad appended/removed, truncation and extension of the ciphertext
         opens("aad_len", key_, ts, [(nonce, aad + [0], ct)] + ([(nonce, aad[:-1], ct)] if aad else []))
         cuts = [(nonce, aad, ct[:len(ct) - d]) for d in range(1, ts + 2) if len(ct) - d >= 0]
